@@ -354,8 +354,23 @@ func blockedKinds(s string) string {
 
 var lastWorld *World
 
+// after this many executions with a violation that is not a known finding, the exploration of the
+// scenario stops: the run fails anyway, and a change that makes every execution fail (and longer) must
+// not make the check run for hours
+const stopAfterNewViolations = 300
+
 func exploreScenario(sc *Scenario, bound int, budget int64, shard, nshards int) {
 	outcomes := map[string]bool{}
+	newViolations := 0
+	noteViolation := func(sig string) {
+		if !r.IsKnown(sig) {
+			newViolations++
+			if newViolations == stopAfterNewViolations {
+				vsched.Abort = true
+				r.Count("scenarios_stopped_after_violations", 1)
+			}
+		}
+	}
 	n, capped := vsched.Explore(bound, budget, shard, nshards, func(prefix []int) *vsched.Result {
 		res, w := execute(sc, prefix)
 		if os.Getenv("VERIF_DOUBLE") != "" {
@@ -399,10 +414,12 @@ func exploreScenario(sc *Scenario, bound int, budget int64, shard, nshards int) 
 					sig = fmt.Sprintf(ID+"|race|close-on-input-goroutine|%s|%s", side[1], rc.Field)
 				}
 			}
+			noteViolation(sig)
 			r.Violation(sig, len(sched), detail{Scenario: sc.Name, Fair: vsched.FairOrder, Schedule: sched, Events: w.Got,
 				What: fmt.Sprintf("data race on %s: [%s] (inside %s) and [%s] (inside %s) are not ordered by any synchronisation (r = read, w = write)", rc.Field, rc.A, rc.RootA, rc.B, rc.RootB)})
 		}
 		if sig, what := check(sc, res, w); sig != "" {
+			noteViolation(sig)
 			var sched []int
 			for _, p := range res.Trace {
 				sched = append(sched, p.Chosen)
@@ -560,10 +577,14 @@ func Main(id string, scenarios []Scenario, what string) {
 	if cappedN > 0 {
 		r.CapHit("%d of %d scenarios reached the execution budget (%d) at deviation bound %d; deviation bound %d was explored completely for every Scenario", cappedN, len(scenarios), budget, top, full)
 	}
+	stopped := r.Get("scenarios_stopped_after_violations")
+	if stopped > 0 {
+		r.CapHit("%d scenario explorations were stopped after %d executions with a new violation each", stopped, stopAfterNewViolations)
+	}
 	r.Finish(explore.Coverage{
 		States: -1, Transitions: r.Get("points"), Traces: ex, Evaluations: ex,
 		Rule:       fmt.Sprintf("stateless exploration of thread schedules of a real Vaxis on a scheduler-aware console backed by the reference terminal: %d scenarios (%s); New runs under the canonical schedule, then every schedule with <=%d deviations completely, under the canonical orders %s, and with <=%d deviations up to an execution budget (a deviation is any choice other than the canonical one: running thread, else first thread in the order, else first environment event - typed input, terminal reply, signal, timer). Oracle per execution: no panic (other than one the scenario provokes, which must be raised again), no deadlock, no step-limit overrun, no happens-before data race on the tracked fields, no library goroutine left blocked after Close, console closed exactly once and not left raw, terminal state after Close equal to the state before New, plus the scenario's own conditions (posting order, no lost event, query results). distinct = scenarios", len(scenarios), what, full, ordersText(), top),
-		Exhaustive: cappedN == 0,
+		Exhaustive: cappedN == 0 && stopped == 0,
 		Bounds: map[string]any{"deviation_bound_complete": full, "deviation_bound_budgeted": top, "execution_budget_per_scenario": budget, "scenarios": len(scenarios),
 			"scenarios_capped_at_top_bound": cappedN, "step_limit": 6000, "per_scenario": perScenario},
 		Assumptions: []string{
